@@ -225,6 +225,12 @@ Theorem C10_several_writers_limit_monotone : forall bucket nlen H st0 sched i,
 Proof. exact FileConcThms.monotone. Qed.
 Print Assumptions C10_several_writers_limit_monotone.
 
+(* one newCounter / Add grows the file by at most two 16 KiB pages *)
+Theorem C10_growth_bounded : forall s o, Inv s -> small s -> count_op o ->
+  len (w_bs (snd (step s o))) <= len (w_bs s) + 32768.
+Proof. exact step_growth. Qed.
+Print Assumptions C10_growth_bounded.
+
 (* a well-formed file never makes a valid operation fail (no "corrupt", no
    endless extension): names of 1..4096 bytes get their record *)
 Theorem C10_ops_succeed : forall s o, Inv s -> small s -> ok_result o (fst (step s o)).
